@@ -47,7 +47,7 @@ pub fn covering_array() -> Vec<BConfig> {
                 for loc_info in [false, true] {
                     for fancy in [false, true] {
                         for custom_lexer in [false, true] {
-                            all.push(BConfig { glr, builder, arrays, loc_info, fancy, custom_lexer, rn_table: false });
+                            all.push(BConfig { glr, builder, arrays, loc_info, fancy, custom_lexer, rn_table: false , no_skip_ws: false });
                         }
                     }
                 }
